@@ -256,15 +256,23 @@ func init() {
 	register(&Prop{
 		ID:    "C17",
 		Level: "model_checking",
-		Rule:  "complete enumeration of a finite domain: all 15^3 IUPAC codons (dictionary, strict and non-strict Translate), all 64^2 unambiguous codon pairs, every 2-codon sequence of any IUPAC codon with a 10-codon menu of resolvable/unresolvable ambiguity codons (both orders) and every 3-codon sequence over the menu, all 32 accepted characters (complement tables text+encoded, encode/decode in both gap modes, set semantics of the bit encoding against all 32 partners), all strings of length 1..3 over the 32 characters (reverse complement through the string, FastaRecord and EncodedFastaRecord forms). Non-trivial: ambiguous codons, non-ACGT symbols, strings of length >= 2; each case generated once",
+		Rule:  "complete enumeration of a finite domain: all 15^3 IUPAC codons (dictionary, strict and non-strict Translate), all 64^2 unambiguous codon pairs, every 2-codon sequence of any IUPAC codon with a 10-codon menu of resolvable/unresolvable ambiguity codons (both orders) and every 3-codon sequence over the menu, all 32 accepted characters (complement tables text+encoded, encode/decode in both gap modes, set semantics of the bit encoding against all 32 partners), all strings of length 1..3 (thorough 1..4) over the 32 characters (reverse complement through the string, FastaRecord and EncodedFastaRecord forms). Non-trivial: ambiguous codons, non-ACGT symbols, strings of length >= 2; each case generated once",
 		Assumptions: []string{
 			"oracle: IUPAC base sets and NCBI translation table 1 written out independently in harness/ref_iupac.go",
 		},
 		Bounds: func(tier string) map[string]interface{} {
-			return map[string]interface{}{"codons": 3375, "codon_pairs": 4096, "symbols": 32, "max_string_length": 3}
+			return map[string]interface{}{"codons": 3375, "codon_pairs": 4096, "symbols": 32, "max_string_length": map[string]int{"quick": 3, "thorough": 4}[tier]}
 		},
 		Plan: func(tier string) ([]string, *engine.JobResult) {
-			return []string{"libconc-ref", "cli", "codons", "pairs", "symbols", "strings:0", "strings:1", "strings:2", "strings:3"}, nil
+			jobs := []string{"libconc-ref", "cli", "codons", "pairs", "symbols"}
+			nsh := 4
+			if tier == "thorough" {
+				nsh = 64
+			}
+			for i := 0; i < nsh; i++ {
+				jobs = append(jobs, fmt.Sprintf("strings:%d/%d", i, nsh))
+			}
+			return jobs, nil
 		},
 		Exec: func(tier, job string) *engine.JobResult {
 			res := &engine.JobResult{}
@@ -358,18 +366,22 @@ func init() {
 				}
 				res.States = 33
 			case strings.HasPrefix(job, "strings:"):
-				var shard int
-				fmt.Sscanf(job, "strings:%d", &shard)
+				var shard, nsh int
+				fmt.Sscanf(job, "strings:%d/%d", &shard, &nsh)
 				n := len(accepted32)
 				idx := 0
-				for l := 1; l <= 3; l++ {
+				maxLen := 3
+				if tier == "thorough" {
+					maxLen = 4
+				}
+				for l := 1; l <= maxLen; l++ {
 					tot := 1
 					for i := 0; i < l; i++ {
 						tot *= n
 					}
 					for v := 0; v < tot; v++ {
 						idx++
-						if idx%4 != shard {
+						if idx%nsh != shard {
 							continue
 						}
 						b := make([]byte, l)
